@@ -25,6 +25,118 @@ def _fields(line):
     return {m.group(1): m.group(2) for m in re.finditer(r"([A-Z])\[([^\]]*)\]", line)}
 
 
+IDX = {"t": 4, "T": 4, "d": 2, "z": 2, "u": 6, "x": 6, "y": 6}
+
+
+def typ_idx(tok):
+    return IDX[tok[0]] + (1 if tok[1] == "6" else 0)
+
+
+def impl_oracles(op_lines, impl_lines, report, max_reports=5):
+    """Property-level checks evaluated on the REAL code's answers alone (no model involved):
+    edge-only transition callbacks, group/node agreement, kernel bit = set non-empty, ignorable and
+    suppressed failures change nothing, a successful probe revives and clears."""
+    n_rep = 0
+    checked = {"edges": 0, "agree": 0, "kbit": 0, "nocount": 0, "success": 0}
+    groups, prev, ncb = {}, None, {}
+
+    def bad(clause, i, detail):
+        nonlocal n_rep
+        if n_rep < max_reports:
+            report(f"implementation violates `{clause}` at line {i + 1} op `{op_lines[i][:70]}`: {detail}",
+                   {"clause": clause, "line": i + 1, "op": op_lines[i], "impl": impl_lines[i],
+                    "prev_impl": impl_lines[i - 1] if i else ""})
+        n_rep += 1
+
+    for i, (op, im) in enumerate(zip(op_lines, impl_lines)):
+        if op == "scenario":
+            groups, prev, ncb = {}, None, {}
+            continue
+        if not im.startswith("N["):
+            continue
+        f = _fields(im)
+        w = op.split()
+        nodes = {}
+        for part in f["N"].split(";"):
+            if part:
+                nid, rest = part.split(":")
+                bits, fc, tc = rest.split("/")
+                nodes[int(nid)] = (bits, fc.split(","), tc.split(","))
+        trans = [(int(x[:-3]), x[-3:-1], x[-1] == "1") for x in f["T"].split(",") if x]
+        gcbs = []
+        for x in f["G"].split(","):
+            if x:
+                k, v = x.split("=")
+                g, ix = k.split(".")
+                gcbs.append((int(g), int(ix), v[0] == "1", v.endswith("i")))
+        sets = []
+        for x in f["S"].split(";"):
+            if x:
+                m = re.match(r"(\d+)\.(\d+)([ai])\[([^\]]*)", x)
+                ents = [int(e.split(":")[0]) for e in m.group(4).split(",") if e]
+                sets.append((int(m.group(1)), int(m.group(2)), m.group(3) == "a", ents))
+        if w[0] == "group":
+            ms = [] if w[5] == "-" else [int(p.split(":")[0]) for p in w[5].split(",")]
+            groups[int(w[1])] = (w[3], ms)
+        for g, ix, a, init in gcbs:
+            if init:
+                ncb[(g, ix)] = 0
+        for g, ix, a, init in gcbs:
+            if not init:
+                ncb[(g, ix)] = ncb.get((g, ix), 0) + 1
+        # --- transition callbacks are exactly the edges
+        if prev is not None:
+            for nid, (bits, _, _) in nodes.items():
+                if nid not in prev:
+                    continue
+                for k, ix in enumerate((2, 3, 4, 5, 6, 7)):
+                    cur = prev[nid][0][k] == "1"
+                    ok = True
+                    for (tn, tt, ta) in trans:
+                        if tn == nid and typ_idx(tt) == ix:
+                            if ta == cur:
+                                ok = False
+                            cur = ta
+                    checked["edges"] += 1
+                    if not ok or cur != (bits[k] == "1"):
+                        bad("callbacks fire exactly once per actual transition", i,
+                            f"node {nid} idx {ix}: before={prev[nid][0][k]} callbacks={[t for t in trans if t[0] == nid]} after={bits[k]}")
+        # --- every registered set agrees with its members' state; kernel bit = non-empty
+        for k, (g, ix, active, ents) in enumerate(sets):
+            pol, ms = groups.get(g, ("?", []))
+            if active:
+                want = sorted(m for m in ms if m in nodes and nodes[m][0][ix - 2] == "1")
+                checked["agree"] += 1
+                if sorted(ents) != want or len(set(ents)) != len(ents):
+                    bad("every group containing the node sees the node's state", i,
+                        f"set {g}.{ix} lists {ents}, alive members are {want}")
+            if pol.startswith("min_") and k < len(f["K"]):
+                checked["kbit"] += 1
+                bit = f["K"][k] == "1"
+                if (ents and not bit) or (not ents and bit and ncb.get((g, ix), 0) > 0):
+                    bad("kernel connectivity bit is 0 exactly when the latency-policy set is empty", i,
+                        f"set {g}.{ix} entries={ents} bit={f['K'][k]} callbacks since init={ncb.get((g, ix), 0)}")
+        # --- ignorable / suppressed / cancelled never count
+        if prev is not None and w[0] in ("txn", "tfail", "probe"):
+            nothing = (w[0] in ("txn", "tfail") and w[3] == "1") or \
+                      (w[0] == "probe" and (w[3] in ("cancel", "skip") or (w[3] == "err" and w[4] in ("cancel", "skip"))))
+            failing = (w[0] in ("txn", "tfail") and w[3] == "0") or (w[0] == "probe" and w[3] == "err" and w[4] in ("err", "-"))
+            sup_before = "sup=1" in _fields(impl_lines[i - 1]).get("P", "")
+            if nothing or (failing and sup_before):
+                checked["nocount"] += 1
+                if nodes != prev or trans or gcbs:
+                    bad("cancellation/teardown errors and failures during reload suppression never count", i,
+                        f"state or callbacks changed: T={f['T']} G={f['G']}")
+            if w[0] == "probe" and (w[3].startswith("ok:") or (w[3] == "err" and w[4].startswith("ok:"))):
+                nid, ix = int(w[1]), typ_idx(w[2])
+                checked["success"] += 1
+                b, fc, tc = nodes[nid]
+                if b[ix - 2] != "1" or fc[ix] != "0" or tc[ix] != "0":
+                    bad("a successful probe makes the node alive and clears the counts", i, f"node {nid} idx {ix}: {b} {fc} {tc}")
+        prev = nodes
+    return checked, n_rep
+
+
 def run(ctx):
     ctx.trusted += [
         "latency values a set reads from a node (snapshotLatencyForPolicy: LatenciesN, moving average, back-off penalty) "
@@ -67,6 +179,8 @@ def run(ctx):
                    {"stream": "c16", "line": ln, "op": op, "impl": im, "model": mo,
                     "scenario_ops": scenario_of(ln)[-400:],
                     "replay": "VERIF_SEED=%d ./check C16 %s" % (ctx.seed, ctx.tier)})
+    checked, _ = impl_oracles(op_lines, impl_lines, lambda what, obj: ctx.report(what, obj))
+    ctx.cov["implementation_side_oracles"] = checked
     for op, im in zip(op_lines, impl_lines):
         if op == "crash" or im.startswith("crash:"):
             ctx.report(f"real code panicked: {im[:300]}", {"op": op, "impl": im})
